@@ -27,10 +27,16 @@ def meta(path):
 
 checks = []
 have = set()
+claimed = None
+cp = os.path.join(V, "claimed.txt")
+if os.path.exists(cp):
+    claimed = set(open(cp).read().split())
 for path in sorted(glob.glob(os.path.join(V, "checks", "c[0-9]*.py"))):
     m = meta(path)
     pid = m.get("ID")
     if pid not in ids:
+        continue
+    if claimed is not None and pid not in claimed:
         continue
     have.add(pid)
     first = m["doc"].strip().split("\n\n")[0].replace("\n", " ")
